@@ -295,7 +295,8 @@ impl<'a> PrettyPrinter<'a> {
         let mut flow = FlowStylist::new(self);
         let mut peek_line_comment = false;
         let mut peek_hash = false;
-        for child in children {
+        let mut children = children.peekable();
+        while let Some(child) = children.next() {
             let at_line_comment = peek_line_comment;
             peek_line_comment = false;
             let at_hash = peek_hash;
@@ -322,7 +323,11 @@ impl<'a> PrettyPrinter<'a> {
                 flow.push_doc(self.arena.text("#"), true, false);
                 peek_hash = true;
             } else {
-                let ctx = ctx.with_mode_if(Mode::Code, at_hash);
+                // Embedded code that is not followed by a blank may be glued to other content, as in `$x_#(1)y$`.
+                let glued = at_hash
+                    && child.kind() == SyntaxKind::Parenthesized
+                    && (children.peek()).map_or(true, |next| next.kind() != SyntaxKind::Space);
+                let ctx = ctx.with_mode_if(Mode::Code, at_hash).with_glued(glued);
                 let item = producer(ctx, child);
                 if let Some(repr) = item.0 {
                     flow.push_doc(repr.doc, repr.space_before, repr.space_after);
